@@ -54,7 +54,7 @@ type consScenario struct {
 	Logs           [][]sarama.VRec // per partition, offsets filled at load time
 	Later          [][]sarama.VRec // appended after the subscription (start = newest)
 	Aborted        [][]sarama.VSimAborted
-	LSO            []int64 // -1 = high watermark
+	LSO            []int64   // -1 = high watermark
 	Holes          [][]int64 // per partition: offsets a log cleaner removed (never the last record of the initial log)
 	Version        sarama.KafkaVersion
 	Magic          int8
